@@ -732,7 +732,7 @@ class Rules:
         self.bump("R-9XXX", "expect_symbol_ctors", self.sites.key(e))
         ts = variant_set(I, st, m.args[0]) if m.args else None
         cs = variant_set(I, st, m.args[1]) if len(m.args) > 1 else None
-        if (ts is None or cs is None) and len(m.args) == 2 and is_expect_field(m.args[0]) and is_expect_field(m.args[1]):
+        if len(m.args) == 2 and is_expect_field(m.args[0]) and is_expect_field(m.args[1]):
             I.ob("R-9XXX", key + "|forwarded", True, F.file_line(e.site), "ExpectSymbol re-pushed with the fields of an existing ExpectSymbol mode")
             return
         if ts is None or cs is None:
